@@ -1,5 +1,405 @@
+//! C07 — dense output is accurate to the interpolant's order inside every step.
+//! O1: continuous order conditions on the extracted dense weights b_j(theta) (explicit RK);
+//! O2: Radau interpolant = collocation polynomial on linear problems;
+//! O3: empirical interior-error slopes (all methods), BDF interior vs endpoint accuracy.
+
+use super::c02::{variants, EXPLICIT};
 use crate::ctx::{Ctx, Meta};
+use crate::extract::*;
+use crate::probe::*;
+use crate::problems::*;
 use crate::report::Report;
+use crate::rng::Rng;
+use crate::trees::Forest;
+use crate::util::{hash_str, slope};
+use ivp::prelude::*;
+use serde_json::json;
+
+pub fn dense_order(m: Method) -> usize {
+    match m {
+        Method::RK4 | Method::RK23 | Method::RADAU => 3,
+        Method::DOPRI5 => 4,
+        Method::DOP853 => 7,
+        Method::BDF => 1,
+    }
+}
+
 pub fn run(ctx: &Ctx) -> (Report, Meta) {
-    (Report::new(&ctx.prop), Meta::new("not built yet"))
+    let res_tol = 2e-13;
+    let meta = Meta::new(
+        "(O1) RK4, RK23, DOPRI5, DOP853: the continuous weights b_j(theta) of the interpolant handed to SolOut are extracted (8 extraction variants: first/later steps, both signs of h, x0 != 0, clipped final steps) at theta in {0, 1/64, ..., 1} plus 50 random theta and checked against ALL continuous order conditions sum_j b_j(theta) Phi_j(t) = theta^rho(t)/gamma(t) for trees of order <= q (q = 3, 3, 4, 7; 85 trees for DOP853), with non-vacuity at order q+1; (O2) one Radau step on y' = lambda y and 2x2 rotation-decay systems: interpolant vs the cubic through (0,y0) and the three collocation values computed from the exact Radau IIA matrix; (O3) sup over 33 theta of the interpolation error of one step from exact data on closed-form nonlinear problems, slope over h (median over problems, both signs of h), and for BDF whole runs: interior error <= K x max(neighbouring endpoint errors, tolerance scale); non-trivial = (method, variant/tree/theta or problem) obligation evaluated (distinct by hash)",
+    )
+    .assume("continuous order conditions (Hairer-Norsett-Wanner II.6): the interpolant has uniform order q iff they hold for all trees of order <= q")
+    .thresholds(json!({"continuous_condition_residual": res_tol, "collocation_rel": 1e-11, "interior_slope_margin": 0.6, "bdf_interior_factor_K": 5}))
+    .floor("continuous_conditions_checked", 20000)
+    .floor("dense_variants_extracted", 20)
+    .floor("radau_collocation_points_checked", 300)
+    .floor("interior_slopes_fitted", 20)
+    .floor("bdf_steps_checked", 500);
+    let mut rep = Report::new("C07");
+    let forest = Forest::new(9);
+    let mut rng0 = Rng::derive(ctx.seed, 7, 0);
+    let mut thetas: Vec<f64> = (0..=64).map(|k| k as f64 / 64.0).collect();
+    for _ in 0..50 {
+        thetas.push(rng0.f());
+    }
+
+    // ------------------------------------------------------------------ O1
+    for &m in EXPLICIT.iter() {
+        let q = dense_order(m);
+        let mname_ = mname(m);
+        for (vi, &(x0, h, step, clip)) in variants().iter().enumerate() {
+            let case_id = format!("dense_extract/{}/{}", mname_, vi);
+            if !ctx.want(&case_id) {
+                continue;
+            }
+            let vdesc = json!({"method": mname_, "x0": x0, "h": h, "step_index": step, "clipped_to": clip});
+            let cls = format!("{}{}{}", if step > 1 { "later_step" } else { "first_step" }, if h < 0.0 { "_backward" } else { "" }, if clip.is_some() { "_clipped" } else { "" });
+            rep.eval();
+            let t = match std::panic::catch_unwind(|| extract(m, x0, h, step, clip, &thetas)) {
+                Ok(Ok(t)) => t,
+                Ok(Err(e)) => {
+                    rep.violate(&format!("C07/dense_extraction/{}/{}", mname_, cls), e, &case_id, vdesc);
+                    continue;
+                }
+                Err(pn) => {
+                    rep.violate(&format!("C07/no_panic/{}/{}", mname_, cls), crate::probe::panic_message(&pn), &case_id, vdesc);
+                    continue;
+                }
+            };
+            if t.bt.len() != thetas.len() {
+                rep.violate(&format!("C07/dense_extraction/{}/{}", mname_, cls), "no interpolant was handed to the callback".into(), &case_id, vdesc);
+                continue;
+            }
+            rep.count("dense_variants_extracted", 1);
+            rep.nontrivial(hash_str(&case_id));
+            // every stage (the dense-output stages included) must be evaluated at x + c_i h with c_i = sum_j a_ij
+            for i in 0..t.s {
+                let rs: f64 = t.a[i].iter().sum();
+                if (rs - t.c[i]).abs() > 1e-14 * (1.0 + t.a[i].iter().map(|v| v.abs()).sum::<f64>()) {
+                    rep.violate(&format!("C07/stage_time_consistent/{}/{}", mname_, cls), format!("stage {}: sum_j a_ij = {:e} but it is evaluated at x + {:e} h", i, rs, t.c[i]), &case_id, vdesc.clone());
+                }
+            }
+            let phi = forest.weights(&t.a);
+            let mut worst: f64 = 0.0;
+            let mut failed = false;
+            'outer: for (k, &th) in thetas.iter().enumerate() {
+                for ord in 1..=q {
+                    for &tid in &forest.by_order[ord] {
+                        let lhs: f64 = (0..t.s).map(|i| t.bt[k][i] * phi[tid][i]).sum();
+                        let cond: f64 = (0..t.s).map(|i| (t.bt[k][i] * phi[tid][i]).abs()).sum::<f64>().max(1.0);
+                        let rhs = th.powi(ord as i32) / forest.trees[tid].gamma;
+                        let r = (lhs - rhs).abs() / cond;
+                        worst = worst.max(r);
+                        rep.count("continuous_conditions_checked", 1);
+                        if r > res_tol {
+                            rep.violate(
+                                &format!("C07/continuous_order_condition/{}/{}_order{}", mname_, cls, ord),
+                                format!("theta = {}: tree {} of order {}: sum b_j(theta) Phi_j = {:e}, theta^rho/gamma = {:e} (residual {:e})", th, forest.describe(tid), ord, lhs, rhs, r),
+                                &case_id,
+                                vdesc.clone(),
+                            );
+                            failed = true;
+                            break 'outer;
+                        }
+                    }
+                }
+            }
+            rep.worst(&format!("continuous_condition_residual_{}", mname_), worst);
+            if !failed {
+                // non-vacuity at order q+1 (at theta = 1/2)
+                let k = 32;
+                let mut maxnext: f64 = 0.0;
+                for &tid in &forest.by_order[q + 1] {
+                    let lhs: f64 = (0..t.s).map(|i| t.bt[k][i] * phi[tid][i]).sum();
+                    maxnext = maxnext.max((lhs - 0.5f64.powi(q as i32 + 1) / forest.trees[tid].gamma).abs());
+                }
+                if maxnext < 1e-7 {
+                    rep.violate(&format!("C07/oracle_vacuous/{}/{}", mname_, cls), format!("all continuous conditions of order {} hold too (max residual {:e})", q + 1, maxnext), &case_id, vdesc.clone());
+                }
+                if vi == 0 {
+                    rep.sample(json!({"method": mname_, "dense_order_q": q, "b_theta_half": t.bt[32], "worst_residual": worst, "residual_at_order_q_plus_1": maxnext}));
+                }
+            }
+        }
+    }
+
+    // ------------------------------------------------------------------ O2 Radau collocation polynomial
+    {
+        let s6 = 6.0f64.sqrt();
+        let c = [(4.0 - s6) / 10.0, (4.0 + s6) / 10.0, 1.0];
+        let a = [
+            [(88.0 - 7.0 * s6) / 360.0, (296.0 - 169.0 * s6) / 1800.0, (-2.0 + 3.0 * s6) / 225.0],
+            [(296.0 + 169.0 * s6) / 1800.0, (88.0 + 7.0 * s6) / 360.0, (-2.0 - 3.0 * s6) / 225.0],
+            [(16.0 - s6) / 36.0, (16.0 + s6) / 36.0, 1.0 / 9.0],
+        ];
+        // complex 3x3 solve (I - zA) Z = zA 1 y0 for scalar complex y0
+        type C = (f64, f64);
+        let cmul = |p: C, q: C| (p.0 * q.0 - p.1 * q.1, p.0 * q.1 + p.1 * q.0);
+        let cdiv = |p: C, q: C| {
+            let d = q.0 * q.0 + q.1 * q.1;
+            ((p.0 * q.0 + p.1 * q.1) / d, (p.1 * q.0 - p.0 * q.1) / d)
+        };
+        let stage_values = |z: C, y0: C| -> [C; 3] {
+            let mut mtx = [[(0.0, 0.0); 4]; 3];
+            for i in 0..3 {
+                let mut rhs = (0.0, 0.0);
+                for j in 0..3 {
+                    let za = cmul(z, (a[i][j], 0.0));
+                    mtx[i][j] = (if i == j { 1.0 } else { 0.0 } - za.0, -za.1);
+                    rhs = (rhs.0 + za.0, rhs.1 + za.1);
+                }
+                mtx[i][3] = cmul(rhs, y0);
+            }
+            // Gaussian elimination with partial pivoting (modulus)
+            for k in 0..3 {
+                let mut p = k;
+                for i in k + 1..3 {
+                    if mtx[i][k].0.hypot(mtx[i][k].1) > mtx[p][k].0.hypot(mtx[p][k].1) {
+                        p = i;
+                    }
+                }
+                mtx.swap(k, p);
+                for i in k + 1..3 {
+                    let f = cdiv(mtx[i][k], mtx[k][k]);
+                    for j in k..4 {
+                        let t = cmul(f, mtx[k][j]);
+                        mtx[i][j] = (mtx[i][j].0 - t.0, mtx[i][j].1 - t.1);
+                    }
+                }
+            }
+            let mut zsol = [(0.0, 0.0); 3];
+            for i in (0..3).rev() {
+                let mut s = mtx[i][3];
+                for j in i + 1..3 {
+                    let t = cmul(mtx[i][j], zsol[j]);
+                    s = (s.0 - t.0, s.1 - t.1);
+                }
+                zsol[i] = cdiv(s, mtx[i][i]);
+            }
+            [(y0.0 + zsol[0].0, y0.1 + zsol[0].1), (y0.0 + zsol[1].0, y0.1 + zsol[1].1), (y0.0 + zsol[2].0, y0.1 + zsol[2].1)]
+        };
+        let mut zs: Vec<(f64, f64)> = vec![(-0.5, 0.0), (-0.9, 0.6), (0.125, -0.25), (-20.0, 0.0), (0.0, 2.0), (0.5, 0.0), (-3.0, 4.0), (-200.0, 3.0)];
+        for _ in 0..ctx.size(12, 200) {
+            zs.push((-rng0.logu(1e-2, 1e2) * if rng0.chance(0.85) { 1.0 } else { -0.02 }, rng0.range(-5.0, 5.0)));
+        }
+        let th: Vec<f64> = (0..=16).map(|k| k as f64 / 16.0).collect();
+        for (zi_, &(zr, zi)) in zs.iter().enumerate() {
+            for &h in &[1.0, -0.5] {
+                let case_id = format!("collocation/{}/{}", zi_, h);
+                if !ctx.want(&case_id) {
+                    continue;
+                }
+                let (la, lb) = (zr / h, zi / h);
+                let prob = Composite::new(vec![Base::Rot { a: la, w: lb, u0: [0.8, -0.3] }], Warp::Id, None, 0.0);
+                let mut probe = Probe::new(&prob, 0.0);
+                probe.user_jac = true;
+                let lo = LowOpts { first_step: Some(h), dense: true, newton_tol: Some(1e-18), newton_maxiter: Some(50), ..Default::default() };
+                let mut so = RecSolOut::new(Some(&probe));
+                so.thetas = th.clone();
+                let out = run_low_guarded(Method::RADAU, &probe, 0.0, &[0.8, -0.3], h, &Tol::S(1e-6), &Tol::S(1e3), &lo, &mut so);
+                rep.eval();
+                let case = json!({"z": [zr, zi], "h": h});
+                match out {
+                    LowOutcome::Ok(_) if so.cbs.len() == 2 && so.cbs[1].has_interp => {
+                        let y0 = (0.8, -0.3);
+                        let yv = stage_values((zr, zi), y0);
+                        // cubic through (0,y0),(c1,Y1),(c2,Y2),(1,Y3)
+                        let nodes = [0.0, c[0], c[1], 1.0];
+                        let vals = [y0, yv[0], yv[1], yv[2]];
+                        let zabs = zr.hypot(zi).max(1.0);
+                        for (k, &t) in th.iter().enumerate() {
+                            let mut w = (0.0, 0.0);
+                            for i in 0..4 {
+                                let mut l = 1.0;
+                                for j in 0..4 {
+                                    if i != j {
+                                        l *= (t - nodes[j]) / (nodes[i] - nodes[j]);
+                                    }
+                                }
+                                w = (w.0 + l * vals[i].0, w.1 + l * vals[i].1);
+                            }
+                            let got = (so.cbs[1].interp[k][0], so.cbs[1].interp[k][1]);
+                            let scale = vals.iter().fold(1.0f64, |mx, v| mx.max(v.0.hypot(v.1)));
+                            let e = (got.0 - w.0).abs().max((got.1 - w.1).abs()) / (scale * zabs);
+                            rep.count("radau_collocation_points_checked", 1);
+                            rep.worst("radau_interpolant_vs_collocation_polynomial", e);
+                            if e > 1e-11 {
+                                rep.violate("C07/radau_collocation_polynomial/RADAU/linear", format!("theta = {}: interpolant ({:e},{:e}) vs collocation cubic ({:e},{:e}) for z = {}+{}i", t, got.0, got.1, w.0, w.1, zr, zi), &case_id, case.clone());
+                                break;
+                            }
+                        }
+                        rep.nontrivial(hash_str(&case_id));
+                    }
+                    LowOutcome::Panic(msg) => rep.violate("C07/no_panic/RADAU/collocation", msg, &case_id, case),
+                    _ => rep.inconclusive("radau_single_step_failed"),
+                }
+            }
+        }
+    }
+
+    // ------------------------------------------------------------------ O3 empirical interior error
+    let nprob = ctx.size(8, 32);
+    let th33: Vec<f64> = (0..=32).map(|k| k as f64 / 32.0).collect();
+    for &m in [Method::RK4, Method::RK23, Method::DOPRI5, Method::DOP853, Method::RADAU].iter() {
+        let mname_ = mname(m);
+        let q = dense_order(m);
+        let mut slopes: Vec<f64> = Vec::new();
+        for pi in 0..nprob {
+            for &sgn in &[1.0, -1.0] {
+                let case_id = format!("interior/{}/{}/{}", mname_, pi, sgn);
+                if !ctx.want(&case_id) {
+                    continue;
+                }
+                let mut rng = Rng::derive(ctx.seed, 77, (pi * 2 + if sgn > 0.0 { 0 } else { 1 }) as u64);
+                let bases = match pi % 4 {
+                    0 => vec![Base::Tan { u0: rng.range(0.2, 0.6) }],
+                    1 => vec![Base::Logistic { r: rng.range(1.5, 2.5), k: 2.0, u0: rng.range(0.3, 0.8) }, Base::Tanh { a: 1.5, u0: rng.range(-0.6, 0.6) }],
+                    2 => vec![Base::Bern { a: 1.5, b: 0.8, u0: rng.range(0.3, 0.8) }],
+                    _ => vec![Base::Tanh { a: 1.6, u0: rng.range(-0.5, 0.5) }, Base::Tan { u0: rng.range(-0.3, 0.3) }],
+                };
+                let warp = if pi % 2 == 0 { Warp::Sin { a: 0.3, b: 1.3 } } else { Warp::Id };
+                let nn: usize = bases.iter().map(|b| b.dim()).sum();
+                let mix = if nn >= 2 { Some(Mix::random(nn, &mut rng)) } else { None };
+                let x0 = rng.range(-0.3, 0.3);
+                let prob = Composite::new(bases, warp, mix, x0);
+                let hs: Vec<f64> = match m {
+                    Method::DOP853 => vec![0.6, 0.5, 0.4, 0.3, 0.25, 0.2],
+                    _ => vec![0.4, 0.28, 0.2, 0.14, 0.1, 0.07, 0.05, 0.035, 0.025],
+                };
+                let mut lh = Vec::new();
+                let mut le = Vec::new();
+                for &h0 in &hs {
+                    let h = sgn * h0;
+                    if !prob.regular(x0 + h) {
+                        continue;
+                    }
+                    let probe = {
+                        let mut pr = Probe::new(&prob, x0);
+                        pr.user_jac = true;
+                        pr
+                    };
+                    let (rt, at, lo) = if m == Method::RADAU {
+                        (Tol::S(1e-6), Tol::S(1e3), LowOpts { first_step: Some(h), dense: true, newton_tol: Some(1e-18), newton_maxiter: Some(50), ..Default::default() })
+                    } else {
+                        (Tol::S(0.0), Tol::S(1e300), LowOpts { first_step: Some(h), dense: true, ..Default::default() })
+                    };
+                    let mut so = RecSolOut::new(Some(&probe));
+                    so.thetas = th33.clone();
+                    let y0 = prob.exact(x0).unwrap();
+                    let out = run_low_guarded(m, &probe, x0, &y0, x0 + h, &rt, &at, &lo, &mut so);
+                    rep.eval();
+                    if let LowOutcome::Ok(_) = out {
+                        if so.cbs.len() == 2 && so.cbs[1].has_interp {
+                            let mut e: f64 = 0.0;
+                            let mut scale: f64 = 1.0;
+                            for (k, &t) in th33.iter().enumerate() {
+                                let ex = prob.exact(x0 + t * h).unwrap();
+                                for j in 0..ex.len() {
+                                    e = e.max((so.cbs[1].interp[k][j] - ex[j]).abs());
+                                    scale = scale.max(ex[j].abs());
+                                }
+                            }
+                            if e > 1e-11 * scale {
+                                lh.push(h0.ln());
+                                le.push(e.ln());
+                            }
+                        }
+                    }
+                }
+                if lh.len() >= 3 {
+                    let k0 = lh.len().saturating_sub(4);
+                    let s = slope(&lh[k0..], &le[k0..]);
+                    slopes.push(s);
+                    rep.count("interior_slopes_fitted", 1);
+                    rep.nontrivial(hash_str(&case_id));
+                } else {
+                    rep.inconclusive("interior_too_few_points_above_rounding");
+                }
+            }
+        }
+        if ctx.only.is_none() && slopes.len() >= 4 {
+            slopes.sort_by(|a, b| a.partial_cmp(b).unwrap());
+            let med = slopes[slopes.len() / 2];
+            let lowq = slopes[slopes.len() / 5];
+            rep.worst(&format!("median_interior_slope_deficit_{}", mname_), (q as f64 + 1.0) - med);
+            rep.worst(&format!("lower_quintile_interior_slope_deficit_{}", mname_), (q as f64 + 1.0) - lowq);
+            if med < q as f64 + 1.0 - 0.6 {
+                rep.violate(
+                    &format!("C07/interior_error_order/{}/median", mname_),
+                    format!("the interpolation error inside a step from exact data scales like h^{:.2} (median over {} problems); order q = {} requires h^{}", med, slopes.len(), q, q + 1),
+                    &format!("interior/{}/median", mname_),
+                    json!({"method": mname_, "slopes": slopes}),
+                );
+            }
+        }
+    }
+
+    // ------------------------------------------------------------------ BDF: interior vs endpoint accuracy on whole runs
+    let nb = ctx.size(60, 1500);
+    for i in 0..nb {
+        let case_id = format!("bdf/{}", i);
+        if !ctx.want(&case_id) {
+            continue;
+        }
+        let mut rng = Rng::derive(ctx.seed, 777, i as u64);
+        let dirn = rng.sign();
+        let x0 = rng.range(-1.0, 1.0);
+        let xend = x0 + dirn * rng.range(0.5, 5.0);
+        let (prob, _amp) = random_composite(&mut rng, x0, xend, 3, 10.0);
+        let mut scn = Scn::new(Method::BDF, x0, xend, prob.y0());
+        let rt = rng.logu(1e-8, 1e-3);
+        scn.rtol = Tol::S(rt);
+        scn.atol = Tol::S(rt * rng.logu(1e-3, 1.0));
+        scn.dense = true;
+        scn.user_jac = rng.bool();
+        let res = run_solve(&prob, &scn, false, false);
+        rep.eval();
+        let case = scn.describe(&prob);
+        let Outcome::Ok(sol) = &res.out else {
+            if let Outcome::Panic(msg) = &res.out {
+                rep.violate("C07/no_panic/BDF/whole_run", msg.clone(), &case_id, case);
+            }
+            continue;
+        };
+        if sol.status != Status::Success || sol.t.len() < 4 {
+            rep.inconclusive("bdf_run_unusable");
+            continue;
+        }
+        rep.nontrivial(hash_str(&case_id));
+        let n = scn.y0.len();
+        // one tolerance scale per component for the whole run (local scales spike at zero crossings)
+        let scl: Vec<f64> = (0..n).map(|j| scn.atol.at(j) + scn.rtol.at(j) * sol.y.iter().fold(0.0f64, |mx, v| mx.max(v[j].abs()))).collect();
+        let errs: Vec<f64> = (0..sol.t.len())
+            .map(|k| {
+                let ex = prob.exact(sol.t[k]).unwrap();
+                (0..n).fold(0.0f64, |mx, j| mx.max((sol.y[k][j] - ex[j]).abs() / scl[j]))
+            })
+            .collect();
+        for k in 0..sol.t.len() - 1 {
+            let mut worst: f64 = 0.0;
+            for &th in &[0.25, 0.5, 0.75] {
+                let t = sol.t[k] + th * (sol.t[k + 1] - sol.t[k]);
+                if let Ok(v) = sol.sol(t) {
+                    let ex = prob.exact(t).unwrap();
+                    for j in 0..n {
+                        worst = worst.max((v[j] - ex[j]).abs() / scl[j]);
+                    }
+                }
+            }
+            let reference = errs[k].max(errs[k + 1]).max(1.0);
+            rep.count("bdf_steps_checked", 1);
+            rep.worst("bdf_interior_over_endpoint_error", worst / reference);
+            if worst > 5.0 * reference {
+                rep.violate(
+                    "C07/bdf_interior_accuracy/BDF/whole_run",
+                    format!("step {} of {} [{:e},{:e}] (h = {:e}, previous h = {:e}): interior error is {:.1} tolerance units but the neighbouring endpoint errors are {:.2} and {:.2}; errors of all samples: {:?}", k, sol.t.len() - 1, sol.t[k], sol.t[k + 1], sol.t[k + 1] - sol.t[k], if k > 0 { sol.t[k] - sol.t[k - 1] } else { 0.0 }, worst, errs[k], errs[k + 1], errs.iter().map(|e| (e * 10.0).round() / 10.0).collect::<Vec<_>>()),
+                    &case_id,
+                    case.clone(),
+                );
+                break;
+            }
+        }
+    }
+    (rep, meta)
 }
